@@ -40,7 +40,10 @@ def gen_case(rng, ctx, kinds: List[str], allow_tf=True, allow_fill=True, allow_h
     spec = X.gen_spec(rng, kind, ctx.thorough, inputs=inputs_base if base else ("close", "close", "high", "low"))
     if not base and spec["kind"] == "COUNTER":
         spec["kw"]["input_value"] = rng.choice(["positive", "negative"])
-    rows = X.gen_rows(rng, n, rng.choice(regimes or gen.REGIMES), step=step, ts_mode=ts_mode)
+    regime = rng.choice(regimes or gen.REGIMES)
+    if regimes is None and spec["kind"] in ("VWMA", "VWAP", "OBV") and rng.random() < 0.5:
+        regime = rng.choice(["zero_vol", "flat", "mixed"])      # runs of zero-volume candles
+    rows = X.gen_rows(rng, n, regime, step=step, ts_mode=ts_mode)
     if cfg.get("fill") and rows:
         # keep the number of fill candles small
         tfs = gen.UNITS[cfg["tf"][0]] * int(cfg["tf"][1:])
